@@ -12,3 +12,33 @@ def dropStr (s : String) (n : Nat) : String := String.ofList (s.toList.drop n)
 def natOf? (s : String) : Option Nat := s.toNat?
 
 end Walrus.Driver
+
+namespace Walrus.Driver
+
+def hexVal (c : Char) : Nat :=
+  if '0' ≤ c ∧ c ≤ '9' then c.toNat - '0'.toNat
+  else if 'a' ≤ c ∧ c ≤ 'f' then c.toNat - 'a'.toNat + 10
+  else 0
+
+def hexBytes (s : String) : ByteArray :=
+  if s = "-" then ByteArray.empty else
+  let rec go (cs : List Char) (acc : ByteArray) : ByteArray :=
+    match cs with
+    | a :: b :: r => go r (acc.push (UInt8.ofNat (hexVal a * 16 + hexVal b)))
+    | _ => acc
+  go s.toList ByteArray.empty
+
+/-- hex-encoded UTF-8 -> String ("-" is the empty string) -/
+def unhexStr (s : String) : String :=
+  match String.fromUTF8? (hexBytes s) with
+  | some r => r
+  | none => "<bad-utf8:" ++ s ++ ">"
+
+def hexDigit (n : Nat) : Char :=
+  if n < 10 then Char.ofNat ('0'.toNat + n) else Char.ofNat ('a'.toNat + n - 10)
+
+def hexStr (s : String) : String :=
+  if s.isEmpty then "-" else
+  String.ofList (s.toUTF8.toList.flatMap fun b => [hexDigit (b.toNat / 16), hexDigit (b.toNat % 16)])
+
+end Walrus.Driver
